@@ -27,7 +27,7 @@ def templates(rng, k):
   w = rng.choice([1, 4, 8, 8, 16, 33])
   c1, c2 = rng.randrange(1 << min(w, 8)), rng.randrange(1 << min(w, 8))
   op1, op2 = rng.choice(['+', '^', '|']), rng.choice(['+', '^', '&', '-'])
-  t = k % 9
+  t = k % 10
   I = [('i', ('bits', w)), ('m', ('bits', w))]
   decl = [f's.i = InPort( {w} )', f's.m = InPort( {w} )']
   n = f'K{k}'
@@ -71,6 +71,32 @@ def templates(rng, k):
     L = decl + [f's.a = Wire( {w} )', f's.b = Wire( {w} )', f's.d = OutPort( {w} )']
     cyc = L + ['@update_once', 'def P():', f'  s.a @= s.i {op1} {c1}', '  s.d @= s.b', '@update', 'def Q():', '  s.b @= s.a']
     return 'once-in-cycle', mk(n, cyc), None, I, 'sched-error'
+  if t == 9:   # a convergent loop that runs through K >= 3 different host components (one update block each)
+    K = rng.randrange(3, 7); h = max(1, w // 2)
+    mono = rng.random() < 0.5
+    if mono: f0 = f1 = 's.out @= ( s.in_ | s.ext ) & s.msk'          # monotone: settles from any start
+    else:    f0, f1 = f's.out @= ( s.in_ >> {h} ) + s.ext', 's.out @= s.in_ ^ s.ext'   # one contracting stage: bits leave the loop
+    node = f'''
+class RingNode( Component ):
+  def construct( s, first ):
+    s.in_ = InPort( {w} ); s.ext = InPort( {w} ); s.msk = InPort( {w} ); s.out = OutPort( {w} )
+    if first:
+      @update
+      def up_first():
+        {f0}
+    else:
+      @update
+      def up_node():
+        {f1}
+'''
+    L = decl + [f's.node = [ RingNode( i == 0 ) for i in range({K}) ]', f's.o = OutPort( {w} )', 'connect( s.o, s.node[0].out )']
+    order = list(range(K)); rng.shuffle(order)          # construction order of the connections is not the ring order
+    for i in order:
+      L += [f'connect( s.node[{i}].out, s.node[{(i + 1) % K}].in_ )', f'connect( s.node[{i}].msk, s.m )']
+      L += [f'connect( s.node[{i}].ext, s.i )'] if i % 2 == 0 or w == 1 else [f's.e{i} = Wire( {w} )', f'connect( s.node[{i}].ext, s.e{i} )', '@update', f'def E{i}():', f'  s.e{i} @= s.i {op1} {(c1 + i) % (1 << min(w, 8))}']
+    body = '\n'.join('    ' + l for l in L)
+    src = sc.STRUCT_SRC + node + f'\nclass {n}( Component ):\n  def construct( s ):\n{body}\n'
+    return 'ring-across-components', src, None, I, ('fixed' if mono else 'lenient')
   # two independent cyclic groups + acyclic rest
   L = decl + [f's.a = Wire( {w} )', f's.b = Wire( {w} )', f's.d = Wire( {w} )', f's.x = Wire( {w} )', f's.y = Wire( {w} )', f's.o = OutPort( {w} )']
   cyc = L + ['@update', 'def P():', f'  s.a @= s.i {op1} {c1}', '  s.d @= s.b', '@update', 'def Q():', '  s.b @= s.a',
@@ -216,7 +242,7 @@ def run(ctx):
   from pymtl3.dsl.errors import UpblkCyclicError
   quick = ctx.tier == 'quick'
   rng = ctx.rng
-  ntempl = 54 if quick else 540
+  ntempl = 60 if quick else 600
   n = ntempl + (150 if quick else 2500)
   cycles = 6 if quick else 16
   coq_cases, coq_meta = [], []
